@@ -65,19 +65,21 @@ def frameNosOf (k : Nat) : List FrameA → List Nat
     | some _ => if f.ft = k then f.frameNo :: frameNosOf k fs else frameNosOf k fs
     | none => frameNosOf k fs
 
-/-- the storage of channel `c` (index in the frame) when the rows `rows` have been populated -/
-def column (rows : List (List (List Value))) (c : Nat) : Arr := rows.map (fun r => r[c]?)
-
-/-- the abstract result of a population of the rows `rows` restricted to the channel selection: selected channels
-(the first always) hold their column, the others are empty -/
+/-- `c == 0 or ident in channels` -/
 def selected (sel : Option (List Bytes)) (k : Nat) (c : Chan) : Bool :=
   match sel with
   | none => true
   | some ids => k = 0 || ids.contains c.ident
 
-def expectArrays (sel : Option (List Bytes)) (rows : List (List (List Value))) : Nat → List Chan → List Arr
-  | _, [] => []
-  | k, c :: cs => (if selected sel k c then column rows k else []) :: expectArrays sel rows (k + 1) cs
+theorem selected_eq_wanted (sel : Option (List Bytes)) (k : Nat) (c : Chan) : wanted sel k c = selected sel k c := rfl
+
+/-- the abstract result of populating the rows `rows` (each row: per channel its values) under a channel selection:
+the storage of the `j`-th channel is the list of the `j`-th components of the rows if the channel is selected (the
+first always is) and empty otherwise.  (`rows.map head?` is the first remaining column, `rows.map tail` the rest.) -/
+def expectArrays (sel : Option (List Bytes)) : Nat → List Chan → List (List (List Value)) → List Arr
+  | _, [], _ => []
+  | k, c :: cs, rows =>
+    (if selected sel k c then rows.map (fun r => r.head?) else []) :: expectArrays sel (k + 1) cs (rows.map List.tail)
 
 /-! ### CHANNEL and FRAME tables of a log pass (encoded by `TD.C03.encodeEflr`) -/
 
